@@ -42,7 +42,7 @@ def scen_c17(r):
     sc = Scenario(g, info)
     if r.random() < 0.5:
         gen_api.gen_edits(g, info, r.randint(1, 4))
-    kind = r.choice(['req', 'req', 'detached_col', 'mixed', 'composite_inline', 'detached_getrefs'])
+    kind = r.choice(['req', 'req', 'detached_col', 'mixed', 'moved_col', 'composite_inline', 'detached_getrefs'])
     tabs = info['tables']
     t = r.choice(tabs)
     cols = info['columns'][t]
@@ -94,6 +94,24 @@ def scen_c17(r):
         sc.want(k, DBE, 'table%d of a reference mixing columns of different tables raises the DBML error' % side)
         k = g.emit(Op(81, rf))
         sc.want(k, DBE, 'DBML of a reference mixing columns of different tables raises the DBML error')
+    elif kind == 'moved_col':
+        # a valid composite reference is asked for its tables, then one of its columns moves to another table through
+        # the public API: the very same questions must now be refused (no answer may be remembered)
+        if len(tabs) < 2 or len(cols) < 2:
+            return None
+        t2 = r.choice([x for x in tabs if x != t])
+        c2s = info['columns'][t2]
+        if len(c2s) < 2:
+            return None
+        rf = g.emit(Op(15, r.choice(['>', '<', '-']), cols[:2], c2s[:2], None, None, None, None, False))
+        g.emit(Op(76, 1, rf)); g.emit(Op(76, 2, rf)); g.emit(Op(81, rf)); g.emit(Op(80, rf))
+        moved = cols[1]
+        g.emit(Op(51, t, V('obj', moved)))
+        g.emit(Op(50, t2, moved))
+        k = g.emit(Op(76, 1, rf))
+        sc.want(k, DBE, 'table1 of a reference whose columns no longer share a table raises the DBML error, also after it answered before')
+        k = g.emit(Op(81, rf))
+        sc.want(k, DBE, 'DBML of a reference whose columns no longer share a table raises the DBML error, also after it rendered before')
     elif kind == 'composite_inline':
         if len(cols) < 2:
             return None
